@@ -327,10 +327,24 @@ class Checker(object):
             return True
         i, w, bad, ref, obs = fails
         names = rn.OUTPUTS[:3] if sld_only else rn.OUTPUTS
-        what = "all" if len(bad) == len(names) else "+".join(bad)
+        what = ("all" if len(bad) == len(names) else
+                "incoherent" if set(bad) <= set(("rho_inc", "xs_inc")) else "+".join(bad))
         case["failing_index"] = i
         where = "direct" if route.startswith("direct") else "compound"
         cause = self.diagnose_table(frags, w) if has_table else None
+        if cause is None and len(bad) >= 2:
+            # one common factor on the number density explains every failing output?
+            for probe in ("rho_im", "xs_abs", "rho_re"):
+                try:
+                    f = obs[probe] / ref[probe]
+                except Exception:
+                    continue
+                if not (f > 0 and math.isfinite(f)):
+                    continue
+                ref2 = self.data.evaluate(frags, dens, w, number_density=ref["N"] * f)
+                if not self._compare(ref2, obs, sld_only):
+                    what = "number-density"
+                    break
         sig = cause if cause else "eq:%s:%s" % (what, where)
         acc.violation(sig, case, dict((k, ref[k]) for k in names), dict((k, repr(obs[k])) for k in names),
                       standalone=standalone, detail=dict(wavelength=w, failing=bad, route=route, cls=cls))
@@ -352,14 +366,17 @@ class Checker(object):
                 b = complex(b); sig = float(sig)
             except Exception:
                 return label
-            ok = False
+            ok_b = ok_s = False
             for lu in (("mass", "nsf") if (sym, a) == ("Lu", 0) else ("mass",)):
                 re_, im_, s_, mre, mim, msig = self.data.atom_scattering(key, w, lu)
-                if (abs(b.real - re_) <= 1e-9 * mre and abs(b.imag - im_) <= 1e-9 * mim
-                        and abs(sig - s_) <= 1e-9 * msig):
-                    ok = True
-            if not ok:
+                if abs(b.real - re_) <= 1e-9 * mre and abs(b.imag - im_) <= 1e-9 * mim:
+                    ok_b = True
+                    if abs(sig - s_) <= 1e-9 * msig:
+                        ok_s = True
+            if not ok_b:
                 return label
+            if not ok_s:
+                return "table-atom-total-cross-section"
         return None
 
     @staticmethod
